@@ -302,6 +302,30 @@ func c13List(c *core.C) {
 			return
 		}
 	}
+	// same sizes, different multisets: an edge (or root) replaced by a duplicate of a sibling
+	if len(base.Edges) >= 2 {
+		m := gen.Clone(base)
+		m.Edges[0] = gen.Clone(m.Edges[1])
+		if !check("edge-replaced-by-duplicate-of-sibling", m) {
+			return
+		}
+		m3 := gen.Clone(base)
+		m3.Edges = append(m3.Edges, gen.Clone(m3.Edges[0]))
+		m4 := gen.Clone(base)
+		m4.Edges = append(m4.Edges, gen.Clone(m4.Edges[1]))
+		c.Evals(2)
+		if a, b := m3.Equal(m4), m4.Equal(m3); a != b || a {
+			c.Violatef("list-mutant-equal:different-duplicated-edge", map[string]any{"base": gen.Canon(base)}, "lists that repeat different edges ([e0,e1,..,e0] vs [e0,e1,..,e1]) compare %v / %v", a, b)
+			return
+		}
+	}
+	if len(base.RootElements) >= 2 {
+		m := gen.Clone(base)
+		m.RootElements[0] = m.RootElements[1]
+		if !check("root-replaced-by-duplicate-of-sibling", m) {
+			return
+		}
+	}
 	m := gen.Clone(base)
 	m.RootElements = append(m.RootElements, "nx")
 	if !check("root-added", m) {
